@@ -19,7 +19,7 @@ from inline_snapshot import outsource
 from inline_snapshot import snapshot
 
 __all__ = [
-    "Color", "Perm", "Outer", "DC", "DCD", "DCN", "AT", "PM", "NT", "NTD", "NoCode", "BadCopy", "RaisesEq",
+    "Color", "Perm", "Outer", "DC", "DCD", "DCN", "AT", "PM", "NT", "NTD", "NoCode", "NoCodeBox", "BadCopy", "RaisesEq",
     "Unorderable", "REC", "rec", "ok", "mark", "check_eq", "check_le", "check_ge", "check_in", "G", "set_g",
     "Is", "outsource", "snapshot", "defaultdict", "ident", "Plain", "EvilEq", "snapshot_alias",
 ]
@@ -108,6 +108,23 @@ class NoCode:
         if type(other) is not NoCode:
             return NotImplemented
         return self.n == other.n
+
+    __hash__ = None
+
+
+class NoCodeBox:
+    """repr is not Python code and is built with repr(child), like most hand-written __repr__ methods"""
+
+    def __init__(self, x):
+        self.x = x
+
+    def __repr__(self):
+        return "<Box " + repr(self.x) + ">"
+
+    def __eq__(self, other):
+        if type(other) is not NoCodeBox:
+            return NotImplemented
+        return self.x == other.x
 
     __hash__ = None
 
